@@ -53,6 +53,10 @@ def task_key() -> str:
     return f"{t.get_name()}#{u}"
 
 
+class ClientHandlerError(RuntimeError):
+    """Raised by the simulated client's own event handler when the scenario says it fails."""
+
+
 def make_spaman_class():
     from geckolib import GeckoAsyncSpaMan
 
@@ -66,6 +70,8 @@ def make_spaman_class():
             self.suspend_p = float(world.cfg.get("suspend_p", 0.0))
             self.suspend_max = float(world.cfg.get("suspend_max", 0.5))
             self.s_suspend = world.choices.stream("client.suspend")
+            self.raise_events = dict(world.cfg.get("raise_events") or {})      # event name -> on which of its deliveries the handler raises
+            self._raise_seen: Dict[str, int] = {}
             self.suspend_events = set(world.cfg.get("suspend_events", []))      # events whose delivery always suspends the handler
             self.on_delivery: List[Callable[[Dict[str, Any]], None]] = []
             self.observer_calls = 0
@@ -88,9 +94,18 @@ def make_spaman_class():
                 "task_obj": asyncio.current_task(),
                 "kwargs": kwargs,
             }
+            want_raise = self.raise_events.get(event.name)
+            if want_raise:
+                self._raise_seen[event.name] = self._raise_seen.get(event.name, 0) + 1
+                if self._raise_seen[event.name] == want_raise:
+                    d["raised"] = True
             self.deliveries.append(d)
             for f in self.on_delivery:
                 f(d)
+            if d.get("raised"):
+                # the client's own handler fails on this delivery (a bug of the application): for the library, the step it was in raises
+                w.result.fault("client_handler_raises")
+                raise ClientHandlerError(f"client handler fails on {event.name}")
             if event.name in self.suspend_events or (self.suspend_p and self.s_suspend.chance(self.suspend_p)):
                 dt = self.s_suspend.uniform(0.0, self.suspend_max)
                 w.result.fault("client_handler_suspend")
